@@ -544,3 +544,45 @@ theorem c09_stop_returns_nonblocking {s : St} (h : Reach lts (init []) s) (hstop
   · exact ⟨h, hstop, hb⟩
 
 end GoSup.Props.C09L
+
+namespace GoSup.Props.C09L
+open GoSup.Core GoSup.CompLts
+open GoSup.CompSeq (CbRes Out names Fsm)
+
+/-- **A callback error or a nil configuration leaves the children untouched and moves the composite to Error** (C11, last
+clause): the reload ends at once; configuration, generations and children are exactly what they were. -/
+theorem c11_callback_failure_untouched (s : St) (res : CbRes) (hrl : s.rl = .entered) (hres : ∀ c, res ≠ .ok c) :
+    ∃ s', step s (.rlCallback res) = some s' ∧ s'.fsm = .error ∧ s'.rl = .idle ∧ s'.cfg = s.cfg ∧ s'.gens = s.gens
+      ∧ s'.live = s.live ∧ s'.reloads = s.reloads + 1 := by
+  cases res with
+  | ok c => exact absurd rfl (hres c)
+  | err => exact ⟨{ s with fsm := .error, rl := .idle, reloads := s.reloads + 1 }, by simp [step, hrl], rfl, rfl, rfl, rfl, rfl, rfl⟩
+  | nil => exact ⟨{ s with fsm := .error, rl := .idle, reloads := s.reloads + 1 }, by simp [step, hrl], rfl, rfl, rfl, rfl, rfl, rfl⟩
+
+/-- **In place when the membership is unchanged** (C11): the reload stores the new configuration and touches no
+generation — no child is stopped or started; every child then gets its one reload call (`rlChildReload`). -/
+theorem c11_in_place (s : St) (cfg : List (Nat × Nat)) (hrl : s.rl = .gotConfig cfg)
+    (hsame : GoSup.CompSeq.changed (names (s.cfg.getD [])) (names cfg) = false) :
+    ∃ s1 s2 s3, step s .rlDecide = some s1 ∧ step s1 .rlSetConfig = some s2 ∧ step s2 .rlChildReload = some s3
+      ∧ s3.cfg = some cfg ∧ s3.gens = s.gens ∧ s3.live = s.live ∧ s3.rl = .finishing := by
+  refine ⟨{ s with rl := .skip cfg }, { s with cfg := some cfg, rl := .children }, { s with cfg := some cfg, rl := .finishing },
+    ?_, ?_, ?_, rfl, rfl, rfl, rfl⟩
+  · simp [step, hrl, hsame]
+  · simp [step]
+  · simp [step]
+
+/-- **By full restart when the membership changed** (C11): the reload first stops the children of the configuration in
+force (`rlStopBegin`: one `Stop()` per entry, last to first), and only when all of them have returned ends the
+generation, stores the new configuration and boots it. -/
+theorem c11_restart_order (s : St) (cfg cur : List (Nat × Nat)) (hrl : s.rl = .gotConfig cfg) (hcur : s.cfg = some cur)
+    (hmu : s.mu = none) (hch : GoSup.CompSeq.changed (names cur) (names cfg) = true) :
+    ∃ s1 s2, step s .rlDecide = some s1 ∧ step s1 .rlStopBegin = some s2
+      ∧ s2.rl = .stopping cfg (names cur).reverse ∧ s2.cfg = some cur ∧ s2.gens = s.gens
+      ∧ step s2 .rlSetConfig = none ∧ step s2 .rlBoot = none := by
+  refine ⟨{ s with rl := .restart cfg }, { s with rl := .stopping cfg (names cur).reverse, mu := some .reload }, ?_, ?_, rfl, hcur, rfl, ?_, ?_⟩
+  · simp [step, hrl, hcur, hch]
+  · simp [step, hmu, hcur]
+  · simp [step]
+  · simp [step]
+
+end GoSup.Props.C09L
